@@ -4,8 +4,10 @@ import (
 	"encoding/hex"
 	"fmt"
 	"sort"
+	"time"
 
 	metav1 "k8s.io/apimachinery/pkg/apis/meta/v1"
+	"k8s.io/apimachinery/pkg/types"
 
 	proxyv1alpha1 "github.com/kubewharf/kubegateway/pkg/apis/proxy/v1alpha1"
 )
@@ -61,6 +63,18 @@ type PolicyW struct {
 	LogMode               string   `json:"logMode"`
 }
 
+// LifeW: the life-cycle part of ObjectMeta, in every state the API server can present an object in. nil = the
+// defaults of earlier replay files (resourceVersion "1", nothing else).
+type LifeW struct {
+	Terminating     bool     `json:"terminating"` // deletionTimestamp (+ grace period 0)
+	Finalizers      []string `json:"finalizers"`  // hex
+	Generation      int64    `json:"generation"`
+	ResourceVersion string   `json:"resourceVersion"` // hex
+	ManagedFields   int      `json:"managedFields"`   // number of entries; the third is malformed
+	OwnerReferences int      `json:"ownerReferences"` // number of entries; the second has no uid
+	UID             string   `json:"uid"`
+}
+
 type ClusterW struct {
 	Name        string       `json:"name"`
 	MetaErrs    [][2]string  `json:"metaErrs"`    // filled at run time from the real ValidateObjectMeta
@@ -74,6 +88,7 @@ type ClusterW struct {
 	// object meta members the model does not read (they only influence metaErrs)
 	Namespace string            `json:"namespace"`
 	Labels    map[string]string `json:"labels"`
+	Life      *LifeW            `json:"lifecycle"`
 }
 
 type KnownW struct {
@@ -143,11 +158,36 @@ func (s SchemaW) obj() proxyv1alpha1.FlowControlSchema {
 	return r
 }
 
-var oneRule = proxyv1alpha1.DispatchPolicyRule{Verbs: []string{"*"}, APIGroups: []string{"*"}, Resources: []string{"*"}}
+// ruleOf: the rules of policy i match exactly the requests for resource "r<i>", so that every policy can be reached
+func ruleOf(i int) proxyv1alpha1.DispatchPolicyRule {
+	return proxyv1alpha1.DispatchPolicyRule{Verbs: []string{"*"}, APIGroups: []string{"*"}, Resources: []string{fmt.Sprintf("r%d", i)}}
+}
 
 // Object builds the real API object.
 func (w ClusterW) Object() *proxyv1alpha1.UpstreamCluster {
 	o := &proxyv1alpha1.UpstreamCluster{ObjectMeta: metav1.ObjectMeta{Name: uh(w.Name), Namespace: w.Namespace, Labels: w.Labels, ResourceVersion: "1"}}
+	if l := w.Life; l != nil {
+		o.ResourceVersion, o.Generation, o.Finalizers, o.UID = uh(l.ResourceVersion), l.Generation, uhl(l.Finalizers), types.UID(l.UID)
+		if l.Terminating {
+			t := metav1.NewTime(time.Unix(1700000000, 0))
+			zero := int64(0)
+			o.DeletionTimestamp, o.DeletionGracePeriodSeconds = &t, &zero
+		}
+		for i := 0; i < l.ManagedFields; i++ {
+			e := metav1.ManagedFieldsEntry{Manager: fmt.Sprintf("m%d", i), Operation: metav1.ManagedFieldsOperationUpdate, APIVersion: "proxy.kubegateway.io/v1alpha1", FieldsType: "FieldsV1"}
+			if i == 2 {
+				e.Operation, e.FieldsType = "Bogus", "FieldsV9"
+			}
+			o.ManagedFields = append(o.ManagedFields, e)
+		}
+		for i := 0; i < l.OwnerReferences; i++ {
+			r := metav1.OwnerReference{APIVersion: "v1", Kind: "ConfigMap", Name: fmt.Sprintf("o%d", i), UID: types.UID(fmt.Sprintf("u%d", i))}
+			if i == 1 {
+				r.UID = ""
+			}
+			o.OwnerReferences = append(o.OwnerReferences, r)
+		}
+	}
 	if w.Annotations != nil {
 		o.Annotations = map[string]string{}
 		for _, kv := range *w.Annotations {
@@ -170,7 +210,7 @@ func (w ClusterW) Object() *proxyv1alpha1.UpstreamCluster {
 		dp := proxyv1alpha1.DispatchPolicy{Strategy: proxyv1alpha1.Strategy(uh(p.Strategy)), UpstreamSubset: uhl(p.UpstreamSubset),
 			FlowControlSchemaName: uh(p.FlowControlSchemaName), LogMode: proxyv1alpha1.LogMode(uh(p.LogMode))}
 		for i := 0; i < p.NRules; i++ {
-			dp.Rules = append(dp.Rules, oneRule)
+			dp.Rules = append(dp.Rules, ruleOf(len(o.Spec.DispatchPolicies)))
 		}
 		o.Spec.DispatchPolicies = append(o.Spec.DispatchPolicies, dp)
 	}
